@@ -300,7 +300,7 @@ def check_setup(acc, N, loop):
     acc.state(name)
 
 
-def check_setup_symbolic(acc, loop, survivor=False):
+def check_setup_symbolic(acc, loop, survivor=False, ctor=False):
     """a symbolic loop in setUp(): whatever halmos does, it must not hand a truncated state to a test that then passes cleanly.
     survivor=True: setUp() additionally reverts unless the trip count is 1 or 3, so that at small --loop exactly one successful setUp path
     survives the cut (no 'Multiple paths' error hides the missing warning)"""
@@ -311,17 +311,24 @@ def check_setup_symbolic(acc, loop, survivor=False):
         # the loop counter (== n on exit) is on the stack: revert unless it is 1 or 3
         tail = ["DUP1", ("push", 1), "EQ", "DUP2", ("push", 3), "EQ", "OR", ("ref", "okn"), "JUMPI"] + e2e.revert0() + [("label", "okn")] + tail
     K = 3 if survivor else 5
-    funcs = {"setUp()": n + ["POP"] + loop_code(n[-2:], "while") + tail,
-             "check_s5()": e2e.if_then(["PUSH0", "SLOAD", ("push", K), "EQ"], e2e.panic(1), "f") + ["STOP"]}
-    c = e2e.Contract("SS", funcs)
+    body = n + ["POP"] + loop_code(n[-2:], "while") + tail
+    funcs = {"check_s5()": e2e.if_then(["PUSH0", "SLOAD", ("push", K), "EQ"], e2e.panic(1), "f") + ["STOP"]}
+    if ctor:
+        # the same loop in the constructor of a test contract that has no setUp() at all (the constructor must have a single path:
+        # the other trip counts are discarded with vm.assume instead of reverting)
+        keep = e2e.vm("assume(bool)", ["DUP1", ("push", 1), "EQ", "DUP2", ("push", 3), "EQ", "OR"])
+        c = e2e.Contract("SS", funcs, ctor=n + ["POP"] + loop_code(n[-2:], "while") + keep + ["PUSH0", "SSTORE"])
+    else:
+        funcs["setUp()"] = body
+        c = e2e.Contract("SS", funcs)
     rr = e2e.run_contract(c, options={"loop": loop, "solver_timeout_assertion": "10s"})
     acc.count("contracts")
-    name = f"setup-symbolic{'-survivor' if survivor else ''}:loop={loop}"
+    name = f"setup-symbolic{'-survivor' if survivor else ''}{'-constructor' if ctor else ''}:loop={loop}"
     acc.outcome((name, rr.exception is not None, tuple(r.exitcode for r in rr.results)))
     for r in rr.results:
         acc.count("tests")
         if r.exitcode == 0 and not any("loop unrolling bound" in m or "Multiple paths" in m for (_, m) in rr.logs):
-            acc.violation(f"silent-pass:{name}", f"{name}: check_s5() is PASS without warning although setUp() loops on a fresh symbol (s == {K} is reachable)", {"kind": "setupsym", "loop": loop, "survivor": survivor})
+            acc.violation(f"silent-pass:{name}", f"{name}: check_s5() is PASS without warning although {'the constructor' if ctor else 'setUp()'} loops on a fresh symbol (s == {K} is reachable)", {"kind": "setupsym", "loop": loop, "survivor": survivor, "ctor": ctor})
             return
     acc.state(name)
 
@@ -415,6 +422,7 @@ def shards(tier, seed):
         out.append({"kind": "setupsym", "loop": loop})
     for loop in (1, 2, 3, 4):
         out.append({"kind": "setupsym", "loop": loop, "survivor": True})
+        out.append({"kind": "setupsym", "loop": loop, "survivor": True, "ctor": True})
     for where in ("setup", "test"):
         for depth in (1, 2, 3):
             for kind in ("CALL", "STATICCALL", "CREATE"):
@@ -437,7 +445,7 @@ def run_case(acc, s):
     elif k == "nested":
         check_nested_stuck(acc, s["where"], s["depth"], s["call"])
     else:
-        check_setup_symbolic(acc, s["loop"], s.get("survivor", False))
+        check_setup_symbolic(acc, s["loop"], s.get("survivor", False), s.get("ctor", False))
 
 
 def run_shard(shard):
